@@ -9,6 +9,7 @@ sampling primitives guarantee (indices in range / distinct / one list per round)
 for every legal witness, hence for every seed.
 -/
 import MahfModel.Proofs.C11Err
+import MahfModel.Proofs.C11SusRange
 namespace MahfModel.Props.C11
 open MahfModel.Selection
 set_option linter.unusedSectionVars false
@@ -66,15 +67,58 @@ format — one block of exactly `2y+1` individuals per population member, `(2y+1
 (Populations that are too small are an `Err`: `documented_errors`; repaired by /repo 2632c92.) -/
 theorem de_count (O : Ops F) (op : Op F) (y : Nat)
     (hop : op = .deRand y ∨ op = .deBest y ∨ (op = .deCurrentToBest y ∧ 1 ≤ y))
-    (ss : List (List Nat)) (pop sel : Pop F)
-    (hl : Legal op pop (.sets ss)) (h : select O op (.sets ss) pop = .ok sel) :
+    (w : Witness F) (pop sel : Pop F)
+    (hl : Legal op pop w) (h : select O op w pop = .ok sel) :
     some sel.length = requested op pop ∧
     ∃ blocks : List (Pop F), sel = blocks.flatten ∧ blocks.length = pop.length ∧
       ∀ blk ∈ blocks, blk.length = 2 * y + 1 := by
-  obtain ⟨blocks, h1, h2, h3⟩ := de_blocks O op y hop ss pop sel hl h
+  obtain ⟨blocks, h1, h2, h3⟩ := de_blocks O op y hop w pop sel hl h
   refine ⟨?_, blocks, h1, h2, h3⟩
   rw [h1, length_flatten_const blocks (2 * y + 1) h3, h2]
   rcases hop with rfl | rfl | ⟨rfl, _⟩ <;> rfl
+
+/-- `DERand`: the block of every member consists of the source members at `2y+1` pairwise distinct
+positions ("`y * 2 + 1` random unique individuals for every individual"). -/
+theorem de_rand_blocks (O : Ops F) (y : Nat) (ss : List (List Nat)) (pop sel : Pop F)
+    (hl : Legal (.deRand y) pop (.sets ss)) (h : select O (.deRand y) (.sets ss) pop = .ok sel) :
+    sel = (ss.map fun s => pick pop s).flatten ∧ ss.length = pop.length ∧
+    ∀ s ∈ ss, s.length = 2 * y + 1 ∧ s.Nodup ∧ inRange pop.length s :=
+  de_rand_shape O y ss pop sel hl h
+
+/-- `DEBest`: every block is `[best, 2y members at pairwise distinct positions]`, where `best` is a source
+member whose objective is minimal — for EVERY legal choice among equally good members (the witness
+position `bi`), not only the code's first minimum. -/
+theorem de_best_blocks (O : Ops F) (y bi : Nat) (ss : List (List Nat)) (pop sel : Pop F)
+    (hl : Legal (.deBest y) pop (.setsBest bi ss)) (h : select O (.deBest y) (.setsBest bi ss) pop = .ok sel) :
+    ∃ b a, pop[bi]? = some b ∧ b.obj = some a ∧ (∀ x ∈ pop, ∀ c, x.obj = some c → a ≤ c) ∧
+      sel = (ss.map fun s => b :: pick pop s).flatten ∧ ss.length = pop.length ∧
+      ∀ s ∈ ss, s.length = 2 * y ∧ s.Nodup ∧ inRange pop.length s :=
+  de_best_shape O y bi ss pop sel hl h
+
+/-- `DECurrentToBest`: the block of a member is `[that member, best, 2y-1 members at pairwise distinct
+positions among those that differ from it]`; `best` as in `de_best_blocks`. -/
+theorem de_current_to_best_blocks (O : Ops F) (y bi : Nat) (ss : List (List Nat)) (pop sel : Pop F)
+    (hl : Legal (.deCurrentToBest y) pop (.setsBest bi ss))
+    (h : select O (.deCurrentToBest y) (.setsBest bi ss) pop = .ok sel) :
+    ∃ b a, pop[bi]? = some b ∧ b.obj = some a ∧ (∀ x ∈ pop, ∀ c, x.obj = some c → a ≤ c) ∧
+      sel = ((pop.zip ss).map fun (p : Ind F × List Nat) =>
+        p.1 :: b :: pick (pop.filter (fun j => !sameInd j p.1)) p.2).flatten ∧ ss.length = pop.length ∧
+      ∀ p ∈ pop.zip ss, p.2.length = 2 * y - 1 ∧ p.2.Nodup ∧
+        inRange (pop.filter (fun j => !sameInd j p.1)).length p.2 :=
+  de_ctb_shape O y bi ss pop sel hl h
+
+/-- The code's own "best" (`min_by_key`: the first member of minimal objective) is one of the legal
+choices, and the model run with that choice does exactly what the code's `best` does — so the theorems
+over all legal witnesses cover the code. -/
+theorem code_best_is_legal (pop : Pop F) (b : Ind F) (h : best pop = .ok (some b)) :
+    ∃ i, pop[i]? = some b ∧ BestIdx pop i ∧ bestAt pop i = best pop :=
+  best_is_legal_choice pop b h
+
+/-- `All` returns the population itself (every member once, in order), `None` the empty selection —
+for every population, evaluated or not. -/
+theorem all_none_exact (O : Ops F) (w : Witness F) (pop : Pop F) :
+    select O .all w pop = .ok pop ∧ select O .none w pop = .ok [] :=
+  ⟨rfl, rfl⟩
 
 /-- SUS returns exactly `num_selected` individuals whenever it returns `Ok` — for every population,
 offset and draw, and over ANY carrier `G` (only the core operation classes are assumed, so this is
@@ -184,19 +228,55 @@ theorem documented_errors (O : Ops F) (hfin : ∀ x, O.fin x = true)
     exact exponentialRank_outcome O hfin hpow n base hp.1 hp.2 _ pop hev
   case deRand y =>
     cases w <;> try (simp only [Legal] at hl; done)
-    obtain ⟨h1, h2, _⟩ := de_outcome O y _ pop hev
-    exact ⟨h1, h2⟩
+    exact de_rand_outcome O y _ pop
   case deBest y =>
     cases w <;> try (simp only [Legal] at hl; done)
-    obtain ⟨_, _, h1, h2, _⟩ := de_outcome O y _ pop hev
+    simp only [Legal] at hl
+    obtain ⟨h1, h2, _⟩ := de_outcome O y _ _ pop hev hl.2
     exact ⟨h1, h2⟩
   case deCurrentToBest y =>
     cases w <;> try (simp only [Legal] at hl; done)
-    obtain ⟨_, _, _, _, h1, h2⟩ := de_outcome O y _ pop hev
+    simp only [Legal] at hl
+    obtain ⟨_, _, h1, h2⟩ := de_outcome O y _ _ pop hev hl.2
     exact ⟨h1, h2⟩
   case iwo a b =>
     obtain ⟨h1, h2, _⟩ := iwo_outcome O hfin a b w pop hev
     exact ⟨h1, h2⟩
+
+/-- operators that never read an objective value -/
+def NoFitness (op : Op F) : Prop :=
+  match op with
+  | .all | .none | .cloneSingle _ | .fullyRandom _ | .randomWithoutRepetition _ | .deRand _ => True
+  | _ => False
+
+/-- The operators that do not use fitness (`All`, `None`, `CloneSingle`, `FullyRandom`,
+`RandomWithoutRepetition`, `DERand`) behave as documented on EVERY population — unevaluated, partly
+evaluated, infinite objective values included — and over every carrier operation set: no panic, `Err`
+exactly in the cases of `ErrCond`.  (No `Evaluated`, finiteness or `powi` hypothesis.) -/
+theorem documented_errors_no_fitness (O : Ops F) (op : Op F) (w : Witness F) (pop : Pop F)
+    (hop : NoFitness op) (hl : Legal op pop w) :
+    (select O op w pop = .error .exec ↔ ErrCond op pop) ∧ select O op w pop ≠ .error .panic := by
+  cases op <;> simp only [NoFitness] at hop
+  case all => simp [select_all, ErrCond]
+  case none => simp [select_none, ErrCond]
+  case cloneSingle n =>
+    rw [select_clone]
+    cases pop with
+    | nil => simp [ErrCond]
+    | cons x xs => cases xs <;> simp [ErrCond]
+  case fullyRandom n =>
+    cases w <;> try (simp only [Legal] at hl; done)
+    rw [select_fullyRandom]
+    by_cases h0 : n = 0
+    · simp [h0, ErrCond]
+    · cases pop <;> simp [h0, ErrCond]
+  case randomWithoutRepetition n =>
+    cases w <;> try (simp only [Legal] at hl; done)
+    rw [select_rwor]
+    by_cases hlt : pop.length < n <;> simp [hlt, ErrCond]
+  case deRand y =>
+    cases w <;> try (simp only [Legal] at hl; done)
+    exact de_rand_outcome O y _ pop
 
 /-- An infinite objective value (`is_finite` false on the maximum) makes `RouletteWheel`, SUS and the
 IWO selection return `Err` — for every carrier operation set and every witness. -/
@@ -300,6 +380,49 @@ theorem proportional_weights_not_normalized (O : Ops F) (h3 : O.fin 3 = true) :
   simp only [proportionalWeights, objectiveBounds, boundsGo, h13, if_true, h3]
   norm_num
 
+/-- Stochastic universal sampling selects "the individuals for which the selection point falls within
+their fitness range": an `Ok` result consists of the source members at `n` positions in population
+order, the `k`-th one being the FIRST position whose cumulative weight reaches the `k`-th selection
+point `(u + k)·total/n` — for every population, offset `≥ 0` and draw `u < 1` (exact arithmetic; the
+weights are the `proportional_weights`, antitone in the objective by `proportional_weights_antitone`). -/
+theorem sus_point_in_range (O : Ops F) (hcast : ∀ k : Nat, O.ofNat k = (k : F)) (n : Nat) (offset u : F)
+    (pop sel : Pop F) (hl : Legal (.sus n offset) pop (.draw u))
+    (h : select O (.sus n offset) (.draw u) pop = .ok sel) :
+    ∃ objs ws is, objectives pop = some objs ∧ proportionalWeights O objs offset false = .ok (some ws) ∧
+      ws.length = pop.length ∧ sel = pick pop is ∧ is.length = n ∧ is.Pairwise (· ≤ ·) ∧
+      ∀ k (hk : k < is.length), is[k] < ws.length ∧
+        (is[k] = 0 ∨ cum ws is[k] < (u + (k : F)) * (sum ws / (n : F))) ∧
+        (u + (k : F)) * (sum ws / (n : F)) ≤ cum ws (is[k] + 1) := by
+  obtain ⟨objs, ws, is, h1, h2, h3, h4, h5⟩ := sus_select_decomp O n offset u pop sel h
+  simp only [Legal] at hl
+  obtain ⟨g1, g2, g3⟩ := susIndices_spec O hcast ws n u is hl.2 h3
+  exact ⟨objs, ws, is, h1, h2, h5, h4, g1, g2, g3⟩
+
+/-- SUS hands out copies in proportion to the weights, up to one copy (`g = total/n`: the distance between
+selection points; `wᵢ`: the weight of position `i`; non-negative weights, `0 ≤ u < 1`):
+(a) if the `k₁`-th and the `k₂`-th point (`k₁ ≤ k₂`) both select position `i`, then `(k₂ - k₁)·g ≤ wᵢ` — at
+    most `⌊wᵢ/g⌋ + 1` copies;
+(b) if the `k₁`-th point selects a position before `i` and the `k₂`-th one a position after `i`, then
+    `wᵢ < (k₂ - k₁)·g` — `c` copies in between mean `c > wᵢ/g - 1`, and a skipped member has weight `< g`;
+(c), (d) at the ends of the wheel: a member before the position selected by the `k₂`-th point has weight
+    `< (u + k₂)·g`, one after the position selected by the `k₁`-th point has weight `≤ (n - u - k₁)·g`.
+Hence a better individual (larger weight) is never given fewer copies than a worse one, up to one copy. -/
+theorem sus_copies_proportional (O : Ops F) (hcast : ∀ k : Nat, O.ofNat k = (k : F)) (ws : List F) (n : Nat)
+    (u : F) (is : List Nat) (hw : ∀ w ∈ ws, 0 ≤ w) (hu0 : 0 ≤ u) (hu1 : u < 1)
+    (h : susIndices O ws n u = .ok is) (i : Nat) (hi : i < ws.length)
+    (k1 k2 : Nat) (h1 : k1 < is.length) (h2 : k2 < is.length) :
+    (k1 ≤ k2 → is[k1] = i → is[k2] = i → ((k2 : F) - (k1 : F)) * (sum ws / (n : F)) ≤ ws[i]) ∧
+    (is[k1] < i → i < is[k2] → ws[i] < ((k2 : F) - (k1 : F)) * (sum ws / (n : F))) ∧
+    (i < is[k2] → ws[i] < (u + (k2 : F)) * (sum ws / (n : F))) ∧
+    (0 < n → is[k1] < i → ws[i] ≤ ((n : F) - u - (k1 : F)) * (sum ws / (n : F))) :=
+  sus_spans O hcast ws n u is hw hu0 hu1 h i hi k1 k2 h1 h2
+
+/-- The weights SUS and the roulette wheel work with are non-negative (offset `≥ 0` is the documented
+domain), so `sus_copies_proportional` applies to every `Ok` run. -/
+theorem selection_weights_nonneg (O : Ops F) (objs : List F) (offset : F) (ws : List F)
+    (h : proportionalWeights O objs offset false = .ok (some ws)) : ∀ w ∈ ws, 0 ≤ w :=
+  propWeights_nonneg O objs offset ws h
+
 /-- `reverse_rank`: rank 1 = lowest objective; a strictly lower objective has a strictly lower rank;
 ties share a rank; every rank is ≥ 1. -/
 theorem reverse_rank_spec (objs : List F) :
@@ -397,9 +520,39 @@ example : select exOps (.sus 2 0) (.draw (1 / 2)) [⟨1, some 1⟩, ⟨2, some 3
   simp [select_sus, objectives, proportionalWeights, objectiveBounds, boundsGo, exOps, susIndices, sum, susGo, susInner, pick]
   norm_num [susGo, susInner]
   rfl
+-- weights [3, 1], 4 points, draw 1/2: points 1/2, 3/2, 5/2, 7/2 → positions 0, 0, 0, 1 (3 : 1 copies)
+example : susIndices exOps ([3, 1] : List ℚ) 4 (1 / 2) = .ok [0, 0, 0, 1] := by
+  simp [susIndices, sum, exOps]
+  norm_num [susGo, susInner]
 example : ParamOk (.exponentialRank 5 (1 / 2) : Op ℚ) := by simp [ParamOk]; norm_num
 example : Legal (.deRand 1 : Op ℚ) exPop (.sets [[0, 1, 2], [3, 2, 1], [1, 0, 3], [2, 3, 0]]) := by
   simp [Legal, ChooseMultiple, inRange, exPop]
+/-- a partly unevaluated population, for `documented_errors_no_fitness` -/
+def exPopU : Pop ℚ := [⟨1, none⟩, ⟨2, some 5⟩, ⟨3, none⟩]
+example : NoFitness (.randomWithoutRepetition 2 : Op ℚ) ∧
+    Legal (.randomWithoutRepetition 2 : Op ℚ) exPopU (.idx [2, 0]) := by
+  simp [NoFitness, Legal, ChooseMultiple, inRange, exPopU]
+example : select exOps (.randomWithoutRepetition 2) (.idx [2, 0]) exPopU = .ok [⟨3, none⟩, ⟨1, none⟩] := by
+  simp [select_rwor, exPopU, pick]
+-- `exPop` has its minimum (-1) at position 1; position 1 is the only legal "best"
+example : Legal (.deBest 1 : Op ℚ) exPop (.setsBest 1 [[0, 1], [3, 2], [1, 0], [2, 3]]) := by
+  refine ⟨⟨rfl, ?_⟩, Or.inr ⟨⟨2, some (-1)⟩, -1, rfl, rfl, ?_⟩⟩
+  · simp [ChooseMultiple, inRange, exPop]
+  · intro y hy b hb
+    simp [exPop] at hy
+    rcases hy with h | h | h | h <;> subst h <;> simp at hb <;> subst hb <;> norm_num
+-- two equally good members (positions 0 and 2 of [3, 5, 3]): both are legal "best" positions
+example : BestIdx ([⟨1, some 3⟩, ⟨2, some 5⟩, ⟨3, some 3⟩] : Pop ℚ) 0 ∧
+    BestIdx ([⟨1, some 3⟩, ⟨2, some 5⟩, ⟨3, some 3⟩] : Pop ℚ) 2 := by
+  constructor
+  · refine Or.inr ⟨⟨1, some 3⟩, 3, rfl, rfl, ?_⟩
+    intro y hy b hb
+    simp at hy
+    rcases hy with h | h | h <;> subst h <;> simp at hb <;> subst hb <;> norm_num
+  · refine Or.inr ⟨⟨3, some 3⟩, 3, rfl, rfl, ?_⟩
+    intro y hy b hb
+    simp at hy
+    rcases hy with h | h | h <;> subst h <;> simp at hb <;> subst hb <;> norm_num
 example : select exOps (.randomWithoutRepetition 3) (.idx [2, 0, 3]) exPop
     = .ok [⟨3, some 3⟩, ⟨1, some 3⟩, ⟨4, some 0⟩] := by
   simp [select_rwor, exPop, pick]
